@@ -319,9 +319,9 @@ func runDriverTrace(res *lib.Result, r *lib.RNG, idx int) {
 		sample := rec.calls[:min(ncalls, 14)]
 		rec.mu.Unlock()
 		res.Case(fmt.Sprintf("driver-trace-%d-%d", idx, phase), ncalls > 1)
-		res.Compared(ncalls)
 		if runErr != nil {
-			res.Note("driver trace %d phase %d: Run returned %v", idx, phase, runErr)
+			// a panic of driver.Run, an error, or a Run that does not return after its context ended
+			res.Fatalf("driver trace %d phase %d: driver.Run failed: %v", idx, phase, runErr)
 		}
 		if idx == 0 {
 			res.Sample(10, map[string]any{"mode": "driver-trace", "phase": phase, "validator": me, "calls": ncalls, "first_calls": sample})
